@@ -729,5 +729,6 @@ func c33Run(rt *rapid.T, rec *ev.Rec) {
 
 func TestC33(t *testing.T) {
 	rec := ev.New("C33", "scripts of 3..22 steps against ServeConn over an in-memory connection: configured per-stream window (1..140000), 1..4 POST streams (optional content-length), DATA frames that fit/exhaust/overdraw the client-side ledger with optional padding 0..255, handler reads of generated sizes, handler return / body close / client RST with unread data, DATA on closed streams, noise frames, checkpoints (PING barriers). non-trivial: >=1 padded frame or >=1 stream closed with unread data or >=1 overdraw; distinct by the full step trace")
+	c33RaceSweep(t, rec, ev.N(1500, 6000))
 	rapid.Check(t, func(rt *rapid.T) { c33Run(rt, rec) })
 }
